@@ -46,7 +46,7 @@ func genFilter(r *Rng, i int, o genOpts) FilterSpec {
 	letter := string(rune('a' + i))
 	f := FilterSpec{
 		Chain: "chain-" + letter, IdP: i, AppHost: "app-" + letter + ".test",
-		CallbackPath: []string{"/callback", "/oauth/cb", "/a/b/c/callback"}[r.Intn(3)],
+		CallbackPath: []string{"/callback", "/oauth/cb", "/a/b/c/callback", "/oauth/call%20back"}[r.Intn(4)],
 		ClientID:     []string{"client-" + letter, "cl ient/" + letter + "+&=", "c" + letter + "-" + r.Str(6)}[r.Intn(3)],
 		ClientSecret: "secret-" + letter + "-" + r.Str(12),
 		IDToken:      TokenCfg{Header: headerNames[r.Intn(len(headerNames))], Preamble: preambles[r.Intn(len(preambles))]},
